@@ -102,8 +102,13 @@ func (c *ConfigSender) Group() curve.Curve {
 // If the secret share and public point are not nil, a refresh is done instead.
 func StartKeygen(group curve.Curve, receiver bool, selfID, otherID party.ID, secretShare curve.Scalar, public curve.Point, pl *pool.Pool) protocol.StartFunc {
 	return func(sessionID []byte) (round.Session, error) {
+		// a refresh is a different protocol than a key generation: they must not share a session tag
+		protocolID := "doerner/keygen"
+		if secretShare != nil || public != nil {
+			protocolID = "doerner/refresh"
+		}
 		info := round.Info{
-			ProtocolID:       "doerner/keygen",
+			ProtocolID:       protocolID,
 			FinalRoundNumber: 3,
 			SelfID:           selfID,
 			PartyIDs:         party.NewIDSlice([]party.ID{selfID, otherID}),
